@@ -67,6 +67,26 @@ fn recase(s: &[u8], rng: &mut Rng, how: u8) -> Vec<u8> {
         .collect()
 }
 
+/// Texts with the same BYTE length as `canon` in which a multi-byte UTF-8 character straddles or
+/// sits at a given byte offset (a character sweep at fixed character count cannot produce these).
+pub fn non_ascii_same_length(canon: &[u8]) -> Vec<Vec<u8>> {
+    let mut out = Vec::new();
+    let l = canon.len();
+    for (ch, w) in [("\u{e9}", 2usize), ("\u{20ac}", 3), ("\u{1f600}", 4)] {
+        for at in [0usize, 1, 2, 3, l / 2, l.saturating_sub(w)] {
+            if at + w > l {
+                continue;
+            }
+            let mut s = canon.to_vec();
+            s.splice(at..at + w, ch.as_bytes().iter().copied());
+            if s.len() == l && std::str::from_utf8(&s).is_ok() {
+                out.push(s);
+            }
+        }
+    }
+    out
+}
+
 fn emit_fmt(out: &mut Out, v: &dyn Var, img: &[u8]) {
     let h = match v.hash(img) {
         Some(h) => h,
@@ -369,6 +389,21 @@ pub fn run_c04(out: &mut Out, rng: &mut Rng, thorough: bool, only: Option<&str>)
             }
         }
     });
+    // texts that differ from a canonical one only in the prefix must not be accepted in ANY mode
+    each_variant(only, |v| {
+        for _ in 0..(if thorough { 10 } else { 2 }) {
+            let canon = hex_of(v, &image(v, rng), true);
+            for pre in [&b"T2"[..], b"t1", b"00", b"\0\0", b"1T", b"T0", b"FF"] {
+                let mut s = canon.clone();
+                s[..2].copy_from_slice(pre);
+                for mode in ["None", "WithVersion", "Empty"] {
+                    emit_parse(out, v, "bytes", mode, &s);
+                    emit_parse(out, v, "with", mode, &s);
+                }
+                emit_parse(out, v, "fromstr", "None", &s);
+            }
+        }
+    });
     // canonical form rests on the digit decoders / encoders of this build
     stage_matrices(out);
 }
@@ -423,6 +458,17 @@ pub fn run_c05(out: &mut Out, rng: &mut Rng, thorough: bool, only: Option<&str>)
             let marks = [0, 1, off, off + 1, off + c2 - 1, off + c2, off + c2 + 1, off + c2 + 2, off + c2 + 3, off + c2 + 4, base.len() - 1];
             for pos in positions(base.len(), &marks, rng, thorough, 2) {
                 emit_parse_sweep(out, v, mode, &base, pos);
+            }
+        }
+        // (b') multi-byte UTF-8 characters at and across the field boundaries, BYTE length kept exact
+        for with_prefix in [true, false] {
+            let canon = hex_of(v, &image(v, rng), with_prefix);
+            for s in non_ascii_same_length(&canon) {
+                for mode in MODES {
+                    emit_parse(out, v, "with", mode, &s);
+                    emit_parse(out, v, "bytes", mode, &s);
+                }
+                emit_parse(out, v, "fromstr", "None", &s);
             }
         }
         // (c) two simultaneous faults; (d) near-miss prefixes
@@ -759,6 +805,31 @@ pub fn run_c13(out: &mut Out, rng: &mut Rng, thorough: bool, only: Option<&str>)
                     let l = mk(rng, cl);
                     let r = if cl == cr && rng.chance(1, 2) { l.clone() } else { mk(rng, cr) };
                     emit_cmpstr(out, v, &l, &r, false);
+                }
+            }
+        }
+        // pairs DERIVED from one another (same digits): case, prefix, doubled prefix, one digit off,
+        // one digit more / less, non-ASCII of the same byte length
+        for _ in 0..(if thorough { 6 } else { 1 }) {
+            let img = image(v, rng);
+            let canon = hex_of(v, &img, true);
+            let mut forms: Vec<Vec<u8>> = vec![
+                canon.clone(),
+                recase(&canon, rng, 1),
+                hex_of(v, &img, false),
+                [&b"T1"[..], &canon[..]].concat(),
+                [&b"T1T1"[..], &canon[..]].concat(),
+                [&canon[..], &b"0"[..]].concat(),
+                canon[..canon.len() - 1].to_vec(),
+            ];
+            let mut off = canon.clone();
+            let i = rng.range(2, off.len() as u64 - 1) as usize;
+            off[i] = if off[i] == b'0' { b'1' } else { b'0' };
+            forms.push(off);
+            forms.extend(non_ascii_same_length(&canon).into_iter().take(3));
+            for l in &forms {
+                for r in &forms {
+                    emit_cmpstr(out, v, l, r, v.name() == "Normal" && rng.chance(1, 3));
                 }
             }
         }
